@@ -100,6 +100,16 @@ func (e *Engine) intercept(fn *ssa.Function, args []Value) (Value, bool) {
 		e.tickers[l] = c
 		e.tickerPeriod = append(e.tickerPeriod, d)
 		return PtrV{l}, true
+	case "(*time.Ticker).Reset":
+		e.stub(key)
+		// re-arming: the next tick is a full (new) period away from now; recorded so that harnesses can
+		// tell a periodic ticker from one that is pushed forward
+		e.tickerResets++
+		e.tracef("ticker.Reset")
+		if c := e.tickers[args[0].(PtrV).L]; c != nil {
+			c.stopped = false
+		}
+		return nil, true
 	case "(*time.Ticker).Stop":
 		e.stub(key)
 		if c := e.tickers[args[0].(PtrV).L]; c != nil {
@@ -619,6 +629,8 @@ func (e *Engine) intrinsic(name string, fn *ssa.Function, args []Value) (Value, 
 		return e.intConst(64, int64(len(e.sleeps))), true
 	case "vSleepArg":
 		return e.sleeps[e.concreteInt(args[0].(*Term), "vSleepArg")], true
+	case "vTickerResets":
+		return e.intConst(64, int64(e.tickerResets)), true
 	case "vTickerStops":
 		return e.intConst(64, int64(e.tickerStops)), true
 	case "vTickerCount":
